@@ -8,6 +8,7 @@ import (
 	"strings"
 	"time"
 
+	"github.com/metal-toolbox/audito-maldito/ingesters/syslog"
 	"github.com/metal-toolbox/audito-maldito/internal/common"
 	"github.com/metal-toolbox/audito-maldito/processors/sshd"
 	"github.com/metal-toolbox/audito-maldito/verif/vlib"
@@ -210,61 +211,11 @@ func childC05(args []string) {
 			}
 		}
 	case "slow": // the correlator becomes ready only after a dwell: the hand-off must wait for it
-		dwell := 1500 * time.Millisecond
+		dwell := 3 * time.Second
 		if tier == "thorough" {
 			dwell = 12 * time.Second
 		}
-		type slowCase struct {
-			c      vlib.SshCase
-			rec    *vlib.Rec
-			logins chan common.RemoteUserLogin
-			done   chan error
-		}
-		var cases []*slowCase
-		for i := from; i < to; i++ {
-			sc := &slowCase{c: c05Accepted(seed, i), rec: vlib.NewRec(), logins: make(chan common.RemoteUserLogin), done: make(chan error, 1)}
-			sc.rec.Entered = make(chan struct{}, 4)
-			out.begin(i, sc.c.Msg)
-			proc := sshd.NewSshdProcessor(ctx, sc.logins, vNode, vMID, sc.rec.Writer(), newMetrics())
-			go func() { sc.done <- proc.ProcessSshdLogEntry(ctx, sshd.SshdLogEntry{PID: "4242", Message: sc.c.Msg}) }()
-			cases = append(cases, sc)
-		}
-		for _, sc := range cases {
-			select {
-			case <-sc.rec.Entered:
-			case <-time.After(30 * time.Second):
-			}
-		}
-		time.Sleep(dwell) // workload, not verdict: nobody is ready to receive for this long
-		for _, sc := range cases {
-			out.add("slow_correlator_cases", 1)
-			out.class("slow|" + sc.c.Form)
-			wit := map[string]any{"case": sc.c, "dwell_ms": dwell.Milliseconds()}
-			select {
-			case err := <-sc.done:
-				out.violation("C05:slow:gave-up-without-cancellation:"+sc.c.Form, fmt.Sprintf("returned %v before the correlator was ready although the context is not cancelled; the login was never forwarded", err), wit)
-				continue
-			default:
-			}
-			select {
-			case l := <-sc.logins:
-				calls := sc.rec.Calls()
-				if len(calls) != 1 || l.Source != calls[0].Ptr || l.PID != 4242 {
-					out.violation("C05:slow:wrong-login:"+sc.c.Form, fmt.Sprintf("login pid=%d events=%d", l.PID, len(calls)), wit)
-				}
-			case <-time.After(30 * time.Second):
-				out.violation("C05:slow:no-login-offered:"+sc.c.Form, "the blocked hand-off did not deliver when the correlator became ready", wit)
-				continue
-			}
-			select {
-			case err := <-sc.done:
-				if err != nil {
-					out.violation("C05:slow:error-after-delivery:"+sc.c.Form, err.Error(), wit)
-				}
-			case <-time.After(30 * time.Second):
-				out.violation("C05:slow:no-return-after-delivery:"+sc.c.Form, "call did not return after the login was received", wit)
-			}
-		}
+		slowHandoff(ctx, out, "C05", seed, from, to, dwell, func(i int) bool { return i%2 == 1 })
 	case "cancel": // cancellation while the hand-off is blocked on an unready correlator
 		for i := from; i < to; i++ {
 			c := c05Accepted(seed, i)
@@ -377,7 +328,8 @@ func checkC05(r *vlib.Run) int {
 	r.Set("cancel_cases", stats["cancel_cases"])
 	r.Set("blocked_states_reached", stats["blocked_states_reached"])
 	r.Set("slow_correlator_cases", stats["slow_correlator_cases"])
-	r.Set("slow_correlator_dwell_ms", r.Pick(1500, 12000))
+	r.Set("slow_correlator_cases_through_the_syslog_ingester", stats["slow_via_syslog-ingester"])
+	r.Set("slow_correlator_dwell_ms", r.Pick(3000, 12000))
 	r.Set("build", "-race")
 	r.Require(len(branches) == 4, "not all four accepted branches exercised")
 	r.Require(stats["order_checks"] > nAcc*9/10, "too few order checks")
@@ -388,4 +340,70 @@ func checkC05(r *vlib.Run) int {
 	r.Assumptions = []string{"'blocked in the hand-off' is established from state (event write recorded, worker parked in select) before cancel() is called",
 		"write-before-forward is observed by a buffered harness channel that must be empty whenever an event write starts, and by logical-clock stamps on an unbuffered channel"}
 	return r.Finish(total, dist.Len(), "accepted public-key / certificate / password / padded lines x PID tokens {1,7,2^22,2^31-1,+5,007,25007}; all failure forms and non-'Accepted' hostile lines for 'never forwards'; event-write failure on every form; cancellation before the call and while blocked in the hand-off for every accepted branch; under -race; distinct = (phase, form, PID token/cancel mode) combinations")
+}
+
+// slowHandoff runs accepted-login lines against a correlator that becomes
+// ready only after a dwell. Half of the lines go through the syslog
+// ingester's callback, which is how the daemon hands lines to the processor.
+func slowHandoff(ctx context.Context, out *childOut, prefix string, seed int64, from, to int, dwell time.Duration, framed func(int) bool) {
+	type slowCase struct {
+		c      vlib.SshCase
+		rec    *vlib.Rec
+		logins chan common.RemoteUserLogin
+		done   chan error
+		via    string
+	}
+	var cases []*slowCase
+	for i := from; i < to; i++ {
+		sc := &slowCase{c: c05Accepted(seed, i), rec: vlib.NewRec(), logins: make(chan common.RemoteUserLogin), done: make(chan error, 1)}
+		sc.rec.Entered = make(chan struct{}, 4)
+		out.begin(i, sc.c.Msg)
+		proc := sshd.NewSshdProcessor(ctx, sc.logins, vNode, vMID, sc.rec.Writer(), newMetrics())
+		if framed(i) {
+			sc.via = "syslog-ingester"
+			ing := &syslog.SyslogIngester{SshdProcessor: proc}
+			go func() { sc.done <- ing.Process(ctx, "4242 "+sc.c.Msg+"\n") }()
+		} else {
+			sc.via = "direct"
+			go func() { sc.done <- proc.ProcessSshdLogEntry(ctx, sshd.SshdLogEntry{PID: "4242", Message: sc.c.Msg}) }()
+		}
+		cases = append(cases, sc)
+	}
+	for _, sc := range cases {
+		select {
+		case <-sc.rec.Entered:
+		case <-time.After(30 * time.Second):
+		}
+	}
+	time.Sleep(dwell) // workload, not verdict: nobody is ready to receive for this long
+	for _, sc := range cases {
+		out.add("slow_correlator_cases", 1)
+		out.class("slow|" + sc.via + "|" + sc.c.Form)
+		out.add("slow_via_"+sc.via, 1)
+		wit := map[string]any{"case": sc.c, "dwell_ms": dwell.Milliseconds(), "via": sc.via}
+		select {
+		case err := <-sc.done:
+			out.violation(prefix+":slow:gave-up-without-cancellation:"+sc.via+":"+sc.c.Form, fmt.Sprintf("returned %v before the correlator was ready although the context is not cancelled; the login was never forwarded", err), wit)
+			continue
+		default:
+		}
+		select {
+		case l := <-sc.logins:
+			calls := sc.rec.Calls()
+			if len(calls) != 1 || l.Source != calls[0].Ptr || l.PID != 4242 {
+				out.violation(prefix+":slow:wrong-login:"+sc.via+":"+sc.c.Form, fmt.Sprintf("login pid=%d events=%d", l.PID, len(calls)), wit)
+			}
+		case <-time.After(30 * time.Second):
+			out.violation(prefix+":slow:no-login-offered:"+sc.via+":"+sc.c.Form, "the blocked hand-off did not deliver when the correlator became ready", wit)
+			continue
+		}
+		select {
+		case err := <-sc.done:
+			if err != nil {
+				out.violation(prefix+":slow:error-after-delivery:"+sc.via+":"+sc.c.Form, err.Error(), wit)
+			}
+		case <-time.After(30 * time.Second):
+			out.violation(prefix+":slow:no-return-after-delivery:"+sc.via+":"+sc.c.Form, "call did not return after the login was received", wit)
+		}
+	}
 }
